@@ -28,7 +28,7 @@ CM = 'xdoctest.checker._check_match'
 
 
 def run(ctx):
-    for fn in (r1_only_under_flag, r2_exact_without_marker, r3_bounds_reach_scan, r4_split_pattern, r4b_regex_gaps_span_newlines, r5_verdict_sources, r6_flag_read_is_current, r7_run_state_is_forwarded):
+    for fn in (r1_only_under_flag, r2_exact_without_marker, r3_bounds_reach_scan, r4_split_pattern, r4b_regex_gaps_span_newlines, r5_verdict_sources, r6_flag_read_is_current, r7_run_state_is_forwarded, r8_got_want_roles):
         ctx.rep.rule(fn, ctx)
 
 
@@ -337,6 +337,12 @@ def r7_run_state_is_forwarded(ctx):
     """the flags that decide this property reach the comparison only through the run state: same clause as C05.R11"""
     from . import c05
     c05.r11_run_state_is_forwarded(ctx, rule='C06.R7')
+
+
+def r8_got_want_roles(ctx):
+    """got and want keep their sides at every call into the checker: same clause as C05.R12"""
+    from . import c05
+    c05.r12_got_want_roles(ctx, rule='C06.R8')
 
 
 # ---------------------------------------------------------------------------
